@@ -9,6 +9,7 @@ import ALV.Lemmas.C12Sum
 import ALV.Lemmas.C12Bank
 import ALV.Lemmas.C12Time
 import ALV.Lemmas.C12Gauss
+import ALV.Lemmas.C12Hist
 import Mathlib.Analysis.SpecialFunctions.Complex.Arg
 import ALV.Common.Audit
 
@@ -363,6 +364,73 @@ theorem driver_value_is_transfer_function (b a : List GRat) (g : GRat)
   rw [h0] at this
   simp at this
 
+/-! ### 7. banks are mutable lists: every use answers for the bank as it is now
+
+A `CascadeFilter` / `ParallelFilter` is a python list.  A history is any sequence of list operations
+(`l[i] = f`, `append`, `insert`, `extend`, `+=`, `*=`, `pop`, `del`, slice assignment / deletion,
+`reverse`, `clear`, swapping) on the banks of a heap — banks may be nested and shared, so an inner
+bank changed through another reference changes every bank holding it — interleaved with uses
+(`freq_response`, `numpoly/denpoly`, `is_lti`, calling the bank). -/
+
+/-- **C12.7a** a use after any history is answered from the heap as the list operations left it:
+the observations of `ops` followed by a use of `t` are those of `ops`, then the answer computed
+on the final heap. -/
+theorem hist_use_reads_current_bank (heap : List (Obj ℂ)) (ops : List (HOp ℝ ℂ)) (t : ℕ)
+    (q : Query ℝ ℂ) :
+    histModel (fun ω : ℝ => Complex.exp (-(Complex.I * ω))) heap (ops ++ [.use t q])
+      = histModel (fun ω : ℝ => Complex.exp (-(Complex.I * ω))) heap ops ++
+        [answer (fun ω : ℝ => Complex.exp (-(Complex.I * ω))) (fun w t => Bank.resp w t) firRun
+          (finalHeap (fun ω : ℝ => Complex.exp (-(Complex.I * ω))) (fun w t => Bank.resp w t) firRun heap ops)
+          t q] := by
+  unfold histModel
+  rw [runH_append]
+  rfl
+
+/-- **C12.7b** the answer depends only on the current contents of the lists: two heaps (reached by
+whatever histories) in which the trees reachable from `t₁` resp. `t₂` are equal answer every use
+alike — nothing else of the past is remembered. -/
+theorem hist_answer_depends_on_snapshot {K φ : Type} [Field K] [DecidableEq K] (pt : φ → K)
+    (h₁ h₂ : List (Obj K)) (t₁ t₂ : ℕ) (q : Query φ K)
+    (hs : snap h₁ (h₁.length + 1) t₁ = snap h₂ (h₂.length + 1) t₂) :
+    answer pt (fun w t => Bank.resp w t) firRun h₁ t₁ q
+      = answer pt (fun w t => Bank.resp w t) firRun h₂ t₂ q :=
+  answer_of_snap pt _ _ h₁ h₂ t₁ t₂ q hs
+
+/-- **C12.7c** uses are pure: the heap after a history is the heap after its list operations alone
+(dropping every `freq_response` / `numpoly` / `is_lti` / call from the history changes no list). -/
+theorem hist_uses_are_pure {K φ : Type} [Field K] [DecidableEq K] (pt : φ → K) (heap : List (Obj K))
+    (ops : List (HOp φ K)) :
+    finalHeap pt (fun w t => Bank.resp w t) firRun heap ops
+      = finalHeap pt (fun w t => Bank.resp w t) firRun heap (ops.filter HOp.isMut) :=
+  finalHeap_filter pt _ _ heap ops
+
+/-- **C12.7d** every step of every history, as coded = as specified: each `freq_response` (and
+`numpoly/denpoly` ratio) is the product over every cascade and the sum over every parallel bank of
+the transfer functions `Σ b_k e^{-jωk} / Σ a_k e^{-jωk}` of the filters that are in the lists at
+that moment; each call is the convolution with the current leaves, composed / added. -/
+theorem hist_model_eq_spec (heap : List (Obj ℂ)) (ops : List (HOp ℝ ℂ)) :
+    histModel (fun ω : ℝ => Complex.exp (-(Complex.I * ω))) heap ops
+      = histSpec (fun ω : ℝ => Complex.exp (-(Complex.I * ω))) heap ops :=
+  histModel_eq_histSpec _ (fun _ => Complex.exp_ne_zero _) heap ops
+
+/-- **C12.7e** the same in every field, at non-zero points (what the driver computes over ℚ[i]
+is covered by C12.6b for each snapshot). -/
+theorem hist_model_eq_spec_field {K φ : Type} [Field K] [DecidableEq K] (pt : φ → K)
+    (hpt : ∀ f, pt f ≠ 0) (heap : List (Obj K)) (ops : List (HOp φ K)) :
+    histModel pt heap ops = histSpec pt heap ops :=
+  histModel_eq_histSpec pt hpt heap ops
+
+/-- **C12.7f** the answer to `freq_response` on a snapshot is the tree response of C12.2e, so all
+of section 2 applies to every moment of a history. -/
+theorem hist_freq_is_tree_response (heap : List (Obj ℂ)) (t : ℕ) (tree : Bank ℂ) (ωs : List ℝ)
+    (hs : snap heap (heap.length + 1) t = some tree) :
+    answer (fun ω : ℝ => Complex.exp (-(Complex.I * ω))) (fun w t => Bank.resp w t) firRun heap t
+        (.freq ωs)
+      = Obs.resp (ωs.map fun ω : ℝ => Bank.spec (Complex.exp (-(Complex.I * ω))) tree) := by
+  unfold answer
+  rw [hs]
+  simp only [answerTree, elementwise, Bank.resp_eq_spec _ (Complex.exp_ne_zero _)]
+
 /-! ### non-vacuity: hypotheses are satisfiable, statements speak about non-trivial inputs -/
 
 example : respOfFilter [(1 : ℚ), 2, 3] [1, 1/2] 1 = Resp.val 4 := by decide +kernel
@@ -386,6 +454,18 @@ example : ∃ bank : List (List ℚ × List ℚ), ∃ hs : List ℚ,            
     bank.map (fun g => respSpec g.1 g.2 (2 : ℚ)) = hs.map Resp.val ∧ hs.length = 2 :=
   ⟨[([1, 1], [1]), ([2], [1, 1])], [3, 2/3], by decide +kernel⟩
 example : dft (fun (w : ℚ) n => pw w n) [1, 2, 3, 4] [1, -1] true = some [5/2, -1/2] := by decide +kernel
+
+-- a history: use, replace stage 0 in place (same length), use again; then through an inner reference
+example : histModel (fun w : ℚ => w)
+      [.bank true [1, 2], .leaf [1, 1] [1], .leaf [2] [1, 1], .leaf [3] [1]]
+      [.use 0 (.freq [1]), .upd 0 (.setitem 0 3), .use 0 (.freq [1])]
+    = [.resp [.val 2], .members [3, 2], .resp [.val 3]] := by decide +kernel
+example : histModel (fun w : ℚ => w)
+      [.bank false [1, 2], .bank true [2, 3], .leaf [1, 1] [1], .leaf [2] [1]]
+      [.use 0 (.freq [1]), .upd 1 (.pop none), .use 0 (.freq [1]), .use 0 (.call [1, 0])]
+    = [.resp [.val 6], .popped 3 [2], .resp [.val 4], .out (some [2, 2])] := by decide +kernel
+example : (snap [Obj.bank true [1, 2], .leaf [(1 : ℚ), 1] [1], .leaf [2] [1, 1]] 4 0).map (Bank.resp 1)
+    = some (.val 2) := by decide +kernel                                                -- hypothesis of 7b/7f
 
 end ALV.Props.C12
 
